@@ -2,6 +2,7 @@ package main
 
 import (
 	"fmt"
+	"os"
 	"go/token"
 	"go/types"
 	"strings"
@@ -201,7 +202,11 @@ func (ex *executor) canInline(callee *ssa.Function) bool {
 	}
 	n := 0
 	for _, b := range callee.Blocks {
-		n += len(b.Instrs)
+		for _, in := range b.Instrs {
+			if _, dbg := in.(*ssa.DebugRef); !dbg {
+				n++
+			}
+		}
 	}
 	return n <= ex.eng.inlineLimit
 }
@@ -276,6 +281,10 @@ func (ex *executor) execCall(st *state, in ssa.Instruction, cc *ssa.CallCommon, 
 		return
 	}
 	key := fnKey(callee)
+	if v, ok := ex.intrinsic(st, key, args, rt); ok {
+		setRes(v)
+		return
+	}
 	if mc, ok := cc.Value.(*ssa.MakeClosure); ok {
 		// immediately-invoked closure
 		var binds []Value
@@ -570,13 +579,23 @@ func (ex *executor) doReturn(st *state, ret *ssa.Return) {
 	bindResults(vars, res, results)
 	env := &specEnv{ex: ex, st: st, old: ex.entry, vars: vars, pkgPath: c.PkgPath}
 	ex.retNodes++
+	if os.Getenv("GOVC_DEBUG") != "" {
+		fmt.Printf("DEBUG return %d of %s pc=%s\n", ex.retNodes, ex.key, st.pc.Short())
+		for n, h := range st.heaps {
+			fmt.Printf("   heap %s: %s\n", n, h.describe(6))
+		}
+	}
 	sfx := ""
 	if ex.retNodes > 1 {
 		sfx = fmt.Sprintf(" @return%d", ex.retNodes)
 	}
 	for i, en := range c.Ensures {
 		t := ex.evalBoolEnv(en, env)
-		ex.addObligation(st, "post", clauseLabel(en, i)+sfx, Implies(st.pc, t), ret.Pos())
+		o := ex.addObligation(st, "post", clauseLabel(en, i)+sfx, Implies(st.pc, t), ret.Pos())
+		if o.RP != nil {
+			o.RP.outs = vals
+			o.RP.outType = results
+		}
 	}
 	for i, as := range c.Asserts {
 		_ = i
@@ -788,4 +807,17 @@ func (ex *executor) builtinCopy(st *state, in ssa.Instruction, cc *ssa.CallCommo
 		st.heaps[c.Name] = copyHeap(h, h, d.C[0], d.C[1], n, s.C[0], s.C[1])
 	}
 	return Value{T: rt, C: []*Term{n}}
+}
+
+// intrinsic: standard-library functions with an exact SMT meaning.
+func (ex *executor) intrinsic(st *state, key string, args []Value, rt types.Type) (Value, bool) {
+	switch key {
+	case "math.Floor":
+		return Value{T: rt, C: []*Term{Raw("fp.roundToIntegral RTN", FPSort, args[0].C[0])}}, true
+	case "math.Ceil":
+		return Value{T: rt, C: []*Term{Raw("fp.roundToIntegral RTP", FPSort, args[0].C[0])}}, true
+	case "math.Trunc":
+		return Value{T: rt, C: []*Term{Raw("fp.roundToIntegral RTZ", FPSort, args[0].C[0])}}, true
+	}
+	return Value{}, false
 }
